@@ -63,7 +63,7 @@ def gen_op(rng, name=None):
 
 def gen_init(rng, cls=None, layout=None):
     return {"cls": cls or rng.choice([1, 1, 2]), "layout": layout or rng.choice(["time", "time", "single", "grid"]),
-            "nt": rng.randint(1, 4), "nlat": rng.randint(1, 3), "nf": rng.randint(3, 7), "nd": rng.choice([4, 6, 8]),
+            "nt": rng.randint(1, 4), "nlat": rng.choice([1, 2, 2, 3, 3]), "nf": rng.randint(3, 7), "nd": rng.choice([4, 6, 8]),
             "seed": rng.randrange(1 << 30), "nan": rng.choice([0, 1, 1, 2]),
             "depth": rng.choice(["inf", "mixed", "finite"]), "allnan": rng.random() < 0.2}
 
@@ -147,6 +147,9 @@ def check_program(ctx, prog, res, mtrace, flat_tables, concat_tables):
                 ctx.tally("fillna did not act in place (recorded, the property does not require it)")
             for msg in st["checks"]:
                 ctx.oracle_fail(msg, rep)
+            if st.get("views"):
+                # allowed (only a deep copy must share nothing): recorded so the evidence shows where views occur
+                ctx.tally("result of %s is a view of an operand in: %s" % (st["op"], ",".join(st["views"])))
             # ---- deep copy shares no data
             if st["op"] == "copy":
                 if st.get("share"):
@@ -215,11 +218,19 @@ def run(ctx):
                 init = gen_init(rng, cls, layout)
                 if layout != "single":
                     init["nt"] = max(init["nt"], 2)
+                    init["nlat"] = max(init["nlat"], 2)
                 progs.append({"init": init, "ops": [gen_op(rng, name)]})
                 # ... and after a deep copy / with a second live object
                 progs.append({"init": gen_init(rng, cls, layout), "ops": [gen_op(rng, "copy"), gen_op(rng, name), gen_op(rng, "fillna")]})
     for _ in range(ctx.n(250, 6000)):
         progs.append({"init": gen_init(rng), "ops": [gen_op(rng) for _ in range(rng.randint(1, 6))]})
+    # restructuring chains: flatten / concatenate / select / save+load after one another
+    for _ in range(ctx.n(60, 1500)):
+        init = gen_init(rng, layout=rng.choice(["grid", "grid", "time"]))
+        init["nt"] = rng.randint(2, 4); init["nlat"] = rng.randint(2, 3)
+        chain = [gen_op(rng, rng.choice(["flatten", "concat", "getitem", "save_load", "copy", "isel", "where"]))
+                 for _ in range(rng.randint(1, 4))]
+        progs.append({"init": init, "ops": chain})
     tmpdir = os.path.join(C.BUILD, "tmp", "C15_%d" % os.getpid())
     os.makedirs(tmpdir, exist_ok=True)
     try:
@@ -295,8 +306,30 @@ def replay(ctx, obj):
         print("REPLAY: no violation on this input")
 
 
-READY = False
-LEVEL_TEXT = ""
-LEVEL_NOTE = ""
+READY = True
+LEVEL_TEXT = ("Theorems (Coq, over nat and lists, no axioms): in a heap of objects that bind variables to buffers, where public "
+              "operations append buffers and objects and the two documented in-place operations (fillna, multiply(inplace=True)) "
+              "rebind variables of their own object, EVERY sequence of operations leaves every previously live object with the same "
+              "variables and the same buffer contents unless one of the operations is an in-place one on that very object "
+              "(induction over the operation list; holds whatever views of its buffers were handed out, because no operation writes "
+              "into an existing buffer); a deep copy is equal to its source variable by variable, lives in buffers that did not "
+              "exist before (only immutable dimension coordinates may be shared) and changes nothing else; the set of objects the "
+              "monitor's model reports as possibly changed is at most the in-place target; numpy's C-order ravel / unravel_index are "
+              "mutually inverse for every rank and shape; flatten keeps the number of spectra and pairs element k with the spectrum "
+              "at unravel(k) and its coordinates; selecting element i of the concatenation of N equally sized inputs returns input "
+              "i. The model is tied to spectrum.py / operations.py by a monitor: byte snapshots of every live object before/after "
+              "every call (also raising calls) in random operation sequences of length <= 6 and every public operation applied "
+              "singly on 1D/2D spectra in three layouts, compared with the extracted model's trace; plus field-by-field checks of "
+              "deep copy, __getitem__/isel/sel/where/bandpass, flatten, concatenate_spectra and netCDF save/load.")
+LEVEL_NOTE = ("Partial by nature: whether numpy/xarray return a view or a copy is runtime behaviour; the model only says 'may share' "
+              "and the theorems hold for every sharing pattern; views returned by sel/isel/__getitem__/flatten/bandpass/"
+              "interpolate_frequency/as_frequency_spectrum are real (tallied in the evidence) and harmless because the library's "
+              "in-place operations rebind variables instead of writing into buffers -- a user writing through .values of a result "
+              "is outside the model. netCDF encoding is xarray/scipy (netCDF3; int64 comes back as int32), only the round trip is "
+              "observed. Numerical results of reductions/interpolation are not modelled here. Repaired in /repo: "
+              "interpolate_frequency(method='spline') filled the NaNs of its operand (commit 458d756). Observations, not defects "
+              "of this property: flatten() of an object that carries scalar variables next to a gridded dimension raises; "
+              "isel/sel on a spectral dimension raise when scalar variables are present; spline interpolation with "
+              "monotone_interpolation=True needs the optional qpsolvers package (NameError here).")
 TECHNIQUE = "Coq proof (induction over operation sequences on an object/variable/buffer heap; C-order index lemmas for any rank) + runtime monitor with byte snapshots compared with the extracted model's trace"
 DESIGN_REF = "DESIGN.md section 5 C15"
